@@ -133,6 +133,10 @@ static inline std::string demangle(const char* n)
    free(d);
    return r;
 }
+enum Phase { PH_IDLE = 0, PH_READ, PH_POST };
+static volatile int g_phase = PH_IDLE;
+static volatile int g_entry = 0;
+
 // ---------------------------------------------------------------- own symbolizer over the binary's .symtab
 // (dladdr only knows exported symbols and would mis-attribute static reader helpers; the sanitizer's libbacktrace gives no file
 // paths for code of the explicit-instantiation object at -g1, so the driver's crash key would lose those frames)
@@ -238,7 +242,9 @@ static inline void printSyntheticFrames()
    char buf[512];
    for(size_t i = 0; i < f.size(); i++)
    {
-      int n = snprintf(buf, sizeof buf, "    #%zu 0x%llx in %s /repo/src/soplex/[c13-symtab]\n", i, (unsigned long long)(uintptr_t)f[i].first, f[i].second.c_str());
+      // the innermost frame carries the entry point ("mps-rational@NameSet::add"): real and rational readers are separate code
+      std::string nm = (i == 0 && g_phase != PH_IDLE ? std::string(entryName[g_entry]) + "@" : std::string()) + f[i].second;
+      int n = snprintf(buf, sizeof buf, "    #%zu 0x%llx in %s /repo/src/soplex/[c13-symtab]\n", i, (unsigned long long)(uintptr_t)f[i].first, nm.c_str());
       if(n > 0) (void)!write(2, buf, (size_t)std::min<int>(n, (int)sizeof buf - 1));
    }
 }
@@ -280,9 +286,6 @@ static inline void silence(SoPlex& sp)
 }
 
 // ---------------------------------------------------------------- CPU-time watchdog
-enum Phase { PH_IDLE = 0, PH_READ, PH_POST };
-static volatile int g_phase = PH_IDLE;
-static volatile int g_entry = 0;
 static double g_timeScale = 1.0;
 static void (*g_onTimeout)() = nullptr;
 static void timerHandler(int)
